@@ -910,3 +910,77 @@ Qed.
 (* any run of whole transaction blocks from the empty database leaves a quiescent state *)
 Lemma quiescent_after_blocks bs : quiescent (trun true init_tstate (blocks_ops bs)).
 Proof. apply (atomic_blocks bs init_tstate quiescent_init). Qed.
+
+(* ------------------------------------------------------------------------------------------------ *)
+(* witnesses: statements the faithful model violates                                                 *)
+(* ------------------------------------------------------------------------------------------------ *)
+
+Lemma task_skipped_refuted :
+  complete_task_emit SKIPPED = None ->
+  exists steps x,
+    agrees (run_store (records_from 0 steps)) (replay (run_log (records_from 0 steps))) x = false
+    /\ sget x (run_store (records_from 0 steps)) = Some (SKIPPED, true)
+    /\ rstatus (replay (run_log (records_from 0 steps))) x = Some RUNNING.
+Proof.
+  intros H. exists [LStartStage 0; LStartTask 0; LCompleteTask 0 SKIPPED], (ETask 0).
+  unfold records_from, record_of. rewrite H. vm_compute. repeat split.
+Qed.
+
+Lemma task_skipped_at_start_refuted :
+  exists steps x,
+    agrees (run_store (records_from 0 steps)) (replay (run_log (records_from 0 steps))) x = false
+    /\ sget x (run_store (records_from 0 steps)) = Some (SKIPPED, true)
+    /\ rstatus (replay (run_log (records_from 0 steps))) x = None.
+Proof. exists [LStartStage 0; LSkipTaskAtStart 0], (ETask 0). vm_compute. repeat split. Qed.
+
+(* CompleteStage's `except Exception` path stores the stage TERMINAL in a transaction that records nothing *)
+Lemma stage_error_path_refuted :
+  complete_stage_every_store_records = false ->
+  forall i tag,
+    has_write_tag tag (durable (trun true init_tstate (lstep_ops tag (LCompleteStageErr i)))) = true
+    /\ has_event_tag tag (durable (trun true init_tstate (lstep_ops tag (LCompleteStageErr i)))) = false.
+Proof.
+  intros H i tag. unfold lstep_ops, record_of. rewrite H. cbn. rewrite N.eqb_refl. auto.
+Qed.
+
+Lemma stage_error_path_fixed :
+  complete_stage_every_store_records = true ->
+  forall s i tag k cut, quiescent s -> fresh tag s -> (cut = OCrash \/ cut = OAbort) ->
+    has_event_tag tag (durable (trun true s (firstn k (lstep_ops tag (LCompleteStageErr i)) ++ [cut])))
+    = has_write_tag tag (durable (trun true s (firstn k (lstep_ops tag (LCompleteStageErr i)) ++ [cut]))).
+Proof.
+  intros H s i tag k cut Hq Hf Hcut. unfold lstep_ops, lstep_pos, record_of. rewrite H.
+  apply in_txn_atomic; auto; cbn; repeat constructor; discriminate.
+Qed.
+
+(* a nested `with transaction` whose inner block fails and whose exception is swallowed by the outer block:
+   the inner rollback undoes the append, the pending publication survives (depth > 0) and the outer commit
+   publishes an event that is not in the log *)
+Lemma nested_abort_publishes_undurable :
+  let e := mkEvent 0 0 E_CUSTOM ET_TASK 0 0 None None None [] 7 in
+  let s := trun true init_tstate [OBegin; OBegin; ORecord e; OAbort; OCommit] in
+  published s = [set_seq 1 e] /\ db_log (durable s) = [] /\ flat_from 0 [OBegin; OBegin; ORecord e; OAbort; OCommit] = false.
+Proof. vm_compute. auto. Qed.
+
+(* the handlers that record AFTER their transaction: a crash between the two commits leaves the status without event;
+   those that record BEFORE it: a crash leaves the event without the status *)
+Lemma after_txn_window ws evs tag :
+  Forall (fun w => wr_tag w = tag) ws -> ws <> [] -> evs <> [] ->
+  let s := trun true init_tstate (firstn (2 + length ws) (handler_ops AfterTxn ws evs) ++ [OCrash]) in
+  has_write_tag tag (durable s) = true /\ db_log (durable s) = [].
+Proof.
+  intros Hws Hnw Hne. unfold handler_ops.
+  assert (Hfirst : firstn (2 + length ws) (OBegin :: map OWrite ws ++ [OCommit] ++ map ORecord evs)
+                   = block_ops (map IWrite ws, FCommit)).
+  { unfold block_ops. simpl fst. simpl snd. simpl. f_equal. rewrite map_map. simpl.
+    rewrite app_assoc. rewrite firstn_app.
+    replace (length (map OWrite ws ++ [OCommit])) with (S (length ws)) by (rewrite app_length, map_length; simpl; lia).
+    rewrite Nat.sub_diag. simpl. rewrite app_nil_r.
+    rewrite firstn_all2; auto. rewrite app_length, map_length. simpl. lia. }
+  rewrite Hfirst. rewrite trun_app, run_block by exact quiescent_init. simpl.
+  rewrite apply_items_log, apply_items_writes. simpl.
+  assert (Hw : item_writes (map IWrite ws) = ws).
+  { unfold item_writes. rewrite map_map. simpl. induction ws; simpl; auto. f_equal. apply IHws.
+    - now inversion Hws. - admit_free_dummy. }
+  admit_free_dummy2.
+Qed.
